@@ -90,8 +90,14 @@ func verifEmbed(how int, x string) string {
 		return "${{ " + x + " == 1 }}"
 	case 3:
 		return "${{ format('{0}', " + x + ") }}"
-	default:
+	case 4:
 		return "pre ${{ 1 }} mid ${{ fromJSON('[1]')[" + x + "] }} post"
+	case 5:
+		return "${{ " + x + " && 'a' || 'b' }}"
+	case 6:
+		return "${{ (" + x + " || 'a') && 'b' }}"
+	default:
+		return "${{ !(" + x + " && 'a') && 'b' }}"
 	}
 }
 
@@ -120,7 +126,7 @@ func HarnessC12Site(funcs bool) {
 		base := verifAllContexts[verifChoose("context", len(verifAllContexts))]
 		name := verifCased("case", base)
 		site.node.Tag, site.node.Style = "!!str", 0
-		site.node.Value = verifEmbed(verifChoose("embedding", 5), name+".x")
+		site.node.Value = verifEmbed(verifChoose("embedding", 8), name+".x")
 		verifPlace(doc, 1, 0)
 		errs := verifLintNode(doc, verifRulesNoDeprecated())
 		for _, e := range errs {
@@ -150,7 +156,7 @@ func HarnessC12Site(funcs bool) {
 		arg = "'x'"
 	}
 	site.node.Tag, site.node.Style = "!!str", 0
-	site.node.Value = verifEmbed(verifChoose("embedding", 4), name+"("+arg+")")
+	site.node.Value = verifEmbed([]int{0, 1, 2, 3, 5, 6, 7}[verifChoose("embedding", 7)], name+"("+arg+")")
 	verifPlace(doc, 1, 0)
 	errs := verifLintNode(doc, verifRulesNoDeprecated())
 	n := verifCountMsg(errs, 0, "calling function", site.node.Line)
